@@ -40,6 +40,10 @@ CHECKS = {
    text="Program archetypes with a native tick() in their hot paths (loops, recursion to depth 900, for-in over up to 10^5 elements with/without body and nested in calls, per-record and pattern-only rules, range patterns, functions called from patterns, END loops, output to stdout+file+command, getline loops, loops around system()/cmd|getline, and system/close/getline blocked on a hanging stub child) run under ExecuteContext with a simulated context that the simulator closes at a chosen VM step (hook H1), at a script-chosen tick, before the start, never, or while the interpreter waits for a child; 'enum' scenarios close it at every step of a short run. Oracles: never-cancelled == Execute; return within 2000 VM steps of the close; returned error is the context's error; a blocked wait ends without the simulator releasing the child and the child is dead; everything printed to stdout/files by iterations completed before the close is present. Sampling plus enumeration of cancel points of short runs.",
    note="Bound B_steps=2000 is stated, not read from the code. Output to a command is only required to be a well-formed prefix after a cancellation, because exec.CommandContext may kill the command. Real-time grace of 20 s only for 'child was never interrupted'.",
    tech="deterministic simulation: step-exact cancellation via VM-step hook, stub children paced over a control socket"),
+ "C12": dict(cat="exploration", ref="5.4",
+   text="Programs generated from up to 10 I/O attempts through every syntactic form (print/printf > and >>, print | cmd, cmd | getline [var], getline [var] < file, system, close and re-open, fflush, file operands), with names computed at run time (concatenation, sprintf, substr, array element, -v variable, ENVIRON, a value read from stdin), special names, attempts in BEGIN/rules/END/functions and guarded by earlier results, run under the 8 flag combinations x custom OpenFile present/absent x OpenFile fault plans in a simulated world that logs every OpenFile call and every process start and snapshots the scratch directory and an empty working directory. Invariants: NoExec => no process started; NoFileWrites => no write open, directory unchanged; NoFileReads => no read open, no file data seen, stdin still usable; the first forbidden attempt ends the run with an error before it completes and nothing follows; with a custom OpenFile every touched file went through it (no stray in the working directory); permitted attempts really touch the world. Sampling, not proof.",
+   note="Process starts are observed through the stub shell configured in Config.ShellCommand; writes to '-', /dev/stdout, /dev/stderr are not file attempts (either outcome accepted); stdin availability is not asserted when a child or a second scanner shares standard input.",
+   tech="deterministic simulation: generated I/O attempts against a logged simulated world (OpenFile seam, stub shell), invariants over the world log"),
 }
 ORDER = ["C07","C08","C11","C12","C13","C14","C15","C19"]
 checks = []
